@@ -34,6 +34,8 @@ if os.path.exists(rp):
     print("\n### Seeded changes by the builders (mutants/*.patch), re-run by tools/mutants.py\n")
     per = collections.defaultdict(lambda: [0, 0, []])
     for k, r in sorted(res.items()):
+        if not k.startswith("mutants/"):
+            continue  # independently seeded changes have their own table below
         p = r["prop"]
         per[p][0] += 1
         if r["verdict"] == "caught":
